@@ -67,7 +67,7 @@ def run_case(spec, heuristic, mode, unbounded=False):
         scale = 1.0 if k == 0 else 0.5
         pts = L.full_pts(spec, w.G.shape[0])
         w.optimal_G = scale * (pts.T @ pts)
-        w.optimal_F = L.full_fvals(spec, w.F.shape[0])
+        w.optimal_F = L.full_fvals(spec, w.F.shape[0]) + 0.25 * k      # every solve call reports its own values
         wc = None if (unbounded and k == 0) else w.optimal_F[pep.objective.counter]
         return dict(wc_value=wc, duals=duals, constraints=cons, objective=w.prob.objective, prob=w.prob)
 
